@@ -1,6 +1,6 @@
 From Coq Require Import String List Bool Arith.
 Import ListNotations.
-From VP Require Import Rbac.Syntax Rbac.Model Rbac.Policy Rbac.Proofs Rbac.ProofsPure Rbac.Gen_Routes Rbac.Props.
+From VP Require Import Rbac.Syntax Rbac.Model Rbac.Policy Rbac.Proofs Rbac.ProofsPure Rbac.Gen_Routes Rbac.Apps Rbac.Props.
 
 Check (C29_authenticate_spec : forall (c : rbac) (key : option string),
   NoDup (map fst (rkeys c)) -> authenticate c key = spec_role c key).
